@@ -170,6 +170,41 @@ CHECKS['C17'] = dict(
     design='§5 C17',
     note=COMMON_NOTE + 'Signal delivery (Django dispatch) is trusted; deferred index SQL of new models runs after created_models by design and is exempt.')
 
+CHECKS['C04'] = dict(
+    technique='Lean 4 proof (bookkeeping convergence over the run-history model) + path-convergence oracle on generated histories',
+    text=('Over the C08 run-history model, proved for every state and app: after a complete run every label of the '
+          'sequence is recorded whether the app was installed fresh or upgraded from any earlier state '
+          '(C04_all_recorded, C04_paths_converge), and a second run plans, executes and records nothing '
+          '(C04_second_run_noop). That schema, data and stored signature converge is the business of C01/C02/C03; it is '
+          'observed here on generated histories V0..Vn: every start point, stepwise vs direct vs fresh, through '
+          'Evolver.evolve, `evolve --execute` and the replaced `migrate`; final schema, preserved rows, recorded '
+          'labels, stored-vs-computed signature, and a second run that must require nothing and write nothing.'),
+    design='§5 C04',
+    note=COMMON_NOTE + 'Convergence of schema/rows is proved only through the fragments of C01/C02/C03; here it is tested. Evolution modules are installed as real modules under <app>.evolutions.<label> in-process (not re-imported from disk per step).')
+CHECKS['C15'] = dict(
+    technique='Lean 4 proof (exactness + frame of DeleteModel/DeleteApplication on the signature) + before/after oracle on generated projects',
+    text=('Proved for every signature: DeleteModel removes exactly the named model entry and DeleteApplication exactly '
+          'the app\'s model entries (C15_deleteModel_exact, C15_deleteApplication_exact), every other model and every '
+          'other app is the same value afterwards (frame), without a database nothing changes; owned-table list incl. '
+          'auto-created many-to-many tables, prefix table names are different tables. On the real code: generated '
+          'projects of two installed apps plus a stale app (tables + signature entries, not installed) with cross-app '
+          'relations, M2M and prefix table names; `evolve --execute` with and without --purge, DeleteModel and '
+          'DeleteApplication through evolutions; table set, per-table schema and rows and signature entries of '
+          'everything else must be identical. Finding F43 (purge through the command never worked) repaired by a fix: commit.'),
+    design='§5 C15',
+    note=COMMON_NOTE + 'The stale app is emulated by creating its tables from an isolated model registry and injecting its signature into the stored Version (there is no way to uninstall an app inside one process).')
+CHECKS['C16'] = dict(
+    technique='Lean 4 proof (decision logic of router filter and changed-models filter) + two-database oracle over every split',
+    text=('Decision logic stated outright and proved: the signature of a database contains exactly the models the '
+          'router allows there (C16_sig), a model routed elsewhere is in neither signature, and a mutation on a model '
+          'outside both signatures is dropped by the changed-models filter, i.e. neither simulated nor lowered '
+          '(C16_skip). On the real code: every split of 2-3 generated models over two SQLite files by a router, '
+          'creation and a generated evolution with mutations on both sides, each database evolved in turn: tables, '
+          'stored signatures, and a byte-for-byte unchanged snapshot of the database that is not being evolved; a '
+          'failing evolution on the non-default database must roll back there (finding F10, repaired by a fix: commit).'),
+    design='§5 C16',
+    note=COMMON_NOTE + 'is_mutable() is modelled as "always true once a database name is given" (as coded); the router is consulted by Django, which is trusted.')
+
 NOT_YET = {}
 
 
